@@ -1,6 +1,6 @@
 (** C05 — stats equal the aggregates over exactly the filtered rows.
     Statements only; proofs in C05/Proofs.v. *)
-From LMD Require Import QE.Engine C05.Proofs Gen.Schema.
+From LMD Require Import QE.Engine C05.Proofs C05.GroupByProofs QE.StatsOpt QE.StatsOptProofs Gen.Schema.
 Open Scope Z_scope.
 
 (** A counter equals the number of selected rows that satisfy its Stats
@@ -50,6 +50,37 @@ Theorem C05_stats_response :
     [([], map (fun st => final_stat (stat_kind st) (acc_rows st (all_ctxs schema cfg ds rq))) (rq_stats rq))].
 Proof. exact stats_result_nokey. Qed.
 
+(** With group-by Columns there is exactly one result line per distinct
+    combination of column values among the selected rows of all contributing
+    backends (no duplicates, first-occurrence order), and the numbers of line k
+    are the aggregates over exactly the selected rows whose key is k. *)
+Theorem C05_group_by_lines :
+  forall schema cfg ds rq,
+    rq_columns rq <> [] ->
+    let res := stats_result schema cfg ds rq in
+    let all := all_ctxs schema cfg ds rq in
+    NoDup (map fst res) /\
+    map fst res = first_keys (map (ctx_key rq) all) /\
+    (forall k, In k (map fst res) <->
+       exists bk td r, In bk (selected_backends ds rq) /\ contributes rq bk = true /\
+                       table_data bk (rq_table rq) = Some td /\ In r (td_rows td) /\
+                       row_selected schema cfg rq bk td r = true /\
+                       stats_key schema rq bk td r = k) /\
+    (forall k vals, In (k, vals) res ->
+       vals = map (fun st => final_stat (stat_kind st) (acc_rows st (with_key rq k all))) (rq_stats rq)).
+Proof. exact C05_group_by. Qed.
+
+(** the optimised Stats program (req.StatsGrouped, shared leading terms factored out and
+    counted by DataRow.CountStats) gives the same accumulators as the plain program,
+    for every parsed request and every list of rows *)
+Theorem C05_grouped_program :
+  forall schema opt lines rq g xs,
+    parse_request schema opt lines = Ok rq ->
+    optimize (rq_stats rq) = Some g ->
+    fold_left (fun accs x => count_grouped x g accs) xs (map (fun _ => acc0) (rq_stats rq)) =
+    map (fun st => acc_rows st xs) (rq_stats rq).
+Proof. exact grouping_sound_rows_parsed. Qed.
+
 (** non-vacuity: two backends, nested negated counter, negative minimum *)
 Example C05_example :
   let h n st lat := [VStr n; VInt st; VFloat lat] in
@@ -69,3 +100,5 @@ Print Assumptions C05_min.
 Print Assumptions C05_max.
 Print Assumptions C05_split_invariant.
 Print Assumptions C05_stats_response.
+Print Assumptions C05_group_by_lines.
+Print Assumptions C05_grouped_program.
